@@ -59,7 +59,11 @@ fn tree_ops(parent: &[usize], ids: &[usize], labels: &[Label], dp: &[u8], put_fi
     let mut ops = vec![];
     let mut nchild = vec![0usize; k];
     let datum = |i: usize, kind: u8| -> Op {
-        let len = if kind == 1 { 1 + i % 8 } else { 9 + i };
+        let len = match kind & 3 {
+            1 => 1 + i % 8,
+            2 => 9 + i,
+            _ => 0, // a stored datum of zero bytes
+        };
         Op::Put(ids[i], HexSpec::Canon((0..len).map(|x| (x * 7 + i * 31 + 1) as u8).collect()))
     };
     ops.push(Op::Add(ids[0]));
@@ -80,6 +84,13 @@ fn tree_ops(parent: &[usize], ids: &[usize], labels: &[Label], dp: &[u8], put_fi
             if dp[i] != 0 {
                 ops.push(datum(i, dp[i]));
             }
+        }
+    }
+    // data already read in this graph (kind >= 4): the read comes last; if it would collect
+    // something the case falls outside the quantifier and is skipped by the legality check
+    for i in 0..k {
+        if dp[i] >= 4 {
+            ops.push(Op::Data(ids[i]));
         }
     }
     ops
@@ -149,6 +160,9 @@ pub fn run_c11_case(case: &MergeCase, c: &mut Counters, work: &std::path::Path) 
                 Op::Add(v) => h2.add(*v),
                 Op::Bind(a, b, l) => h2.bind(*a, *b, *l),
                 Op::Put(v, d) => h2.put(*v, &d.to_hex()),
+                Op::Data(v) => {
+                    let _ = h2.data(*v);
+                }
                 _ => {}
             }
         }
@@ -304,7 +318,7 @@ fn gen_c11_case(seed: u64, thorough: bool) -> MergeCase {
             ids.push(v);
         }
     }
-    let dp: Vec<u8> = (0..gk).map(|_| *rng.pick(&[0u8, 0, 1, 2])).collect();
+    let dp: Vec<u8> = (0..gk).map(|_| *rng.pick(&[0u8, 0, 1, 2, 3, 6])).collect();
     g_ops.extend(tree_ops(&gt, &ids, &labels, &dp, rng.chance(1, 2)));
     // some data of g already read
     for (i, v) in ids.iter().enumerate() {
@@ -330,7 +344,7 @@ fn gen_c11_case(seed: u64, thorough: bool) -> MergeCase {
         l.rotate_left(1);
         l
     };
-    let hdp: Vec<u8> = (0..hk).map(|_| *rng.pick(&[0u8, 1, 2])).collect();
+    let hdp: Vec<u8> = (0..hk).map(|_| *rng.pick(&[0u8, 1, 2, 1, 2, 3, 5, 6, 7])).collect();
     let h = tree_ops(&ht, &hids, &hlabels, &hdp, rng.chance(1, 2));
     MergeCase { n, cap, g_ops, merge: Op::Merge { h, left, right: hids[0] }, seed: rng.next() }
 }
@@ -379,7 +393,8 @@ pub fn run_c11(cfg: &ShardCfg, out: &mut ShardOut) {
             for hk in 1..=hmax {
                 for ht in trees(hk) {
                     for left_i in 0..gk {
-                        let places = 3usize.pow(hk as u32);
+                        let kinds: usize = if hk <= 3 { 5 } else { 3 }; // none, inline, heap (+ empty, + heap already read)
+                        let places = kinds.pow(hk as u32);
                         for dcode in 0..places {
                             k += 1;
                             if k % cfg.shards != cfg.shard {
@@ -389,7 +404,12 @@ pub fn run_c11(cfg: &ShardCfg, out: &mut ShardOut) {
                                 out.counters.inc("sweep-stopped-by-budget");
                                 break 'sweep;
                             }
-                            let hdp: Vec<u8> = (0..hk).map(|i| ((dcode / 3usize.pow(i as u32)) % 3) as u8).collect();
+                            let hdp: Vec<u8> = (0..hk)
+                                .map(|i| match (dcode / kinds.pow(i as u32)) % kinds {
+                                    4 => 6, // heap datum, read before the merge
+                                    x => x as u8,
+                                })
+                                .collect();
                             let gids: Vec<usize> = (0..gk).map(|i| 3 + i * 2).collect();
                             let hids: Vec<usize> = (0..hk).map(|i| 20 - i).collect();
                             // left graph: data on every vertex (unread at graft points) for even codes, none for odd
@@ -420,7 +440,7 @@ pub fn run_c11(cfg: &ShardCfg, out: &mut ShardOut) {
             }
         }
     }
-    out.extra = J::obj().with("sweep", J::s(&format!("all ordered trees: left <= {gmax} vertices x every left vertex, right <= {hmax} vertices x all 3^k data placements")));
+    out.extra = J::obj().with("sweep", J::s(&format!("all ordered trees: left <= {gmax} vertices x every left vertex, right <= {hmax} vertices x all data placements over none/inline/heap (+ zero-length, + already-read heap for right trees <= 3 vertices)")));
     // part 2: random larger trees with GC history
     for j in 0..cfg.count {
         if out.out_of_time(cfg) {
@@ -473,6 +493,9 @@ pub fn run_c12_case(n: usize, cap: usize, g_ops: &[Op], h: &[Op], left: usize, r
                     Op::Add(v) => gr.add(*v),
                     Op::Bind(a, b, l) => gr.bind(*a, *b, *l),
                     Op::Put(v, d) => gr.put(*v, &d.to_hex()),
+                    Op::Data(v) => {
+                        let _ = gr.data(*v);
+                    }
                     _ => {}
                 }
             }
